@@ -35,11 +35,24 @@
 use std::isize;
 use std::marker::PhantomData;
 use std::ops::Deref;
+#[cfg(not(sighook_verif))]
 use std::sync::atomic::{self, AtomicPtr, AtomicUsize, Ordering};
+#[cfg(sighook_verif)]
+use libc::vshim::atomic::{self, AtomicPtr, AtomicUsize, Ordering};
+#[cfg(not(sighook_verif))]
 use std::sync::{Mutex, MutexGuard, PoisonError};
+#[cfg(sighook_verif)]
+use libc::vshim::{Mutex, MutexGuard, PoisonError};
+#[cfg(not(sighook_verif))]
 use std::thread;
+#[cfg(sighook_verif)]
+use libc::vshim::thread;
 
 use libc;
+
+#[cfg(sighook_verif)]
+#[path = "/verif/shim/halflock_api.rs"]
+mod verif_api;
 
 const YIELD_EVERY: usize = 16;
 const MAX_GUARDS: usize = (isize::MAX) as usize;
